@@ -21,6 +21,7 @@ theorem invB_frame {s s' : State} {t : Tid} (r0 : Ref) (i0 : Inst) (hA : InvA s)
       (Entry.inMapOf s' r0 ∧ ((s'.heap r0).value = some i ∨ (s'.heap r0).pending = some i)))
     (hLoaded : i0 < s.nInst → ((s.inst i0).st.loaded = true → (s'.inst i0).st.loaded = true) ∧
       (s'.inst i0).id = (s.inst i0).id)
+    (hValKeep : r0 < s.nHeap → (s.heap r0).value ≠ none → (s'.heap r0).value = (s.heap r0).value)
     (hPendKeep : i0 < s.nInst → (s.heap r0).pending = some i0 →
       (s.heap r0).loader ≠ some t → (s'.inst i0).st = (s.inst i0).st)
     (hTB : TInvB s' (s'.thr t)) : InvB s' := by
@@ -102,6 +103,16 @@ theorem invB_frame {s s' : State} {t : Tid} (r0 : Ref) (i0 : Inst) (hA : InvA s)
           subst hr
           rw [hPendKeep pi.1 a2.2.2.2.1 (by rw [a2.2.1]; intro h; exact e (Option.some.inj h))]; exact v
         · rw [hinst i ei]; exact v
+      · intro id tgt r hop hp
+        have v := b.same_target id tgt r hop hp
+        by_cases er : r = r0
+        · subst er
+          have hr0 : r < s.nHeap := by
+            have a2 := a.2
+            cases hpc : (s.thr t').pc <;> rw [hpc] at hp a2 <;> simp [Pc.rmRef] at hp <;> subst hp
+            all_goals first | exact a2 | exact a2.1
+          rw [hValKeep hr0 (by rw [v]; simp)]; exact v
+        · rw [hheap r er]; exact v
       · intro r i hp
         have v := b.load_loading r i hp
         by_cases ei : i = i0
@@ -114,6 +125,7 @@ theorem invB_frame {s s' : State} {t : Tid} (r0 : Ref) (i0 : Inst) (hA : InvA s)
           subst hr
           rw [hPendKeep pi.1 a2.2.2.2.1 (by rw [a2.2.1]; intro h; exact e (Option.some.inj h))]; exact v
         · rw [hinst i ei]; exact v
+      · exact b.remove_op
 
 /-- every pc that holds an entry refers to an allocated entry -/
 theorem holds_lt {s : State} {t : Tid} (hA : InvA s) (ht : t < s.nThr) {r : Ref}
